@@ -424,6 +424,37 @@ class Program:
         self._callers = None
         self._edges = None
         self._children = None
+        self._deps = None
+
+    @property
+    def crate_deps(self):
+        """workspace crate -> set of workspace crates it (transitively) uses, derived from resolved callee ids"""
+        if self._deps is None:
+            ws = set(WORKSPACE_CRATES) | {"verif_selftest"}
+            d = collections.defaultdict(set)
+            for b in self.bodies.values():
+                for c in b.calls:
+                    if c.id:
+                        k = c.id.split("::")[0]
+                        if k in ws and k != b.krate:
+                            d[b.krate].add(k)
+                    if c.orig:
+                        k = c.orig.split("::")[0]
+                        if k in ws and k != b.krate:
+                            d[b.krate].add(k)
+            changed = True
+            while changed:
+                changed = False
+                for a in list(d):
+                    for x in list(d[a]):
+                        new = d.get(x, set()) - d[a] - {a}
+                        if new:
+                            d[a] |= new
+                            changed = True
+            for k in ws:
+                d[k].add(k)
+            self._deps = d
+        return self._deps
 
     # ---- lookup ----------------------------------------------------------
     def find(self, self_ty=None, item=None, krate=None, closure=None, file=None, trait=None):
@@ -470,21 +501,21 @@ class Program:
 
     # ---- call graph --------------------------------------------------------
     def call_targets(self, c):
-        """workspace body ids a call may execute (over-approximate for unresolved trait calls)"""
+        """workspace body ids a call may execute (over-approximate for unresolved trait calls: every impl of the trait
+        method in a crate the calling crate depends on)"""
         out = []
         if c.id is None:
             return out
         if c.id in self.bodies:
             out.append(c.id)
+        visible = self.crate_deps.get(c.body.krate, {c.body.krate})
         if (c.kind == "virtual" or not c.res or c.id not in self.bodies) and c.orig in self.trait_impls:
             for i in self.trait_impls[c.orig]:
-                if i in self.bodies and i not in out:
+                if i in self.bodies and i not in out and self.bodies[i].krate in visible:
                     out.append(i)
-        if c.id in self.trait_impls and c.id != c.orig:
-            pass
         if c.id in self.trait_impls and (c.kind == "virtual" or not c.res):
             for i in self.trait_impls[c.id]:
-                if i in self.bodies and i not in out:
+                if i in self.bodies and i not in out and self.bodies[i].krate in visible:
                     out.append(i)
         return out
 
